@@ -23,7 +23,7 @@ func init() {
 			"Go randomises map iteration per range statement, so every repetition (in one process or in separate processes) is an independent sample of the 'schedule'; a dependence on the order of a 2-element map is missed by K repetitions with probability 2^-(K-1) per grammar: this is sampling, not control of the schedule",
 			"the in-process unit calls Builder.TemplateGenFromString / TsGenFromString with the mode switches the CLI sets; the cli unit runs the real command in separate processes",
 		},
-		Explanation: "differential (run vs run): inproc unit = R repetitions x 5 option sets per grammar inside one process; cli unit = K separate `yaccgo generate` processes per grammar and option set; only the output files are compared (the property speaks of output files), not the messages on stdout",
+		Explanation: "differential (run vs run): inproc unit = R repetitions x 5 option sets per grammar inside one process, then one more generation per option set compared with a fresh CLI process (a process that generated other variants before must write the same bytes); cli unit = K separate `yaccgo generate` processes per grammar and option set; only the output files are compared (the property speaks of output files), not the messages on stdout",
 	})
 	fams := []string{"productive", "prec", "separators", "lalr", "nullable", "productive-small", "decl"}
 	Register(&Unit{Prop: "C14", Name: "inproc",
@@ -123,6 +123,33 @@ func evalC14(c *Ctx, cs C14Case) string {
 				return fmt.Sprintf("variant %s: output of run %d differs from run 1\n%s\ngrammar:\n%s", v.Name, k+1, firstDiff(first, b), cs.Text)
 			}
 		}
+	}
+	if cs.Mode == "inproc" && accepted {
+		// "in the same or in different processes": after the in-process runs above
+		// (which went through every option set), one more in-process generation per
+		// option set must equal what a fresh CLI process writes
+		for _, v := range gen.AllVariants {
+			a := filepath.Join(dir, "again-"+v.Name)
+			b := filepath.Join(dir, "cli-"+v.Name)
+			ra := yg.Generate(cs.Text, v.Name, a)
+			rb := gen.Generate(c.CLI(), v, in, b, 60*time.Second)
+			if rb.TimedOut {
+				c.Inconclusive("generation timed out (C13's business)")
+				continue
+			}
+			if ra.Failed() != rb.Failed() {
+				return fmt.Sprintf("variant %s: in-process generation %s, a fresh CLI process %s on the same input\n%s", v.Name, okfail(ra.Failed()), okfail(rb.Failed()), cs.Text)
+			}
+			if ra.Failed() {
+				continue
+			}
+			ba, _ := os.ReadFile(a)
+			bb, _ := os.ReadFile(b)
+			if !bytes.Equal(ba, bb) {
+				return fmt.Sprintf("variant %s: the file generated in a process that had generated other variants before differs from the file a fresh process writes\n%s\ngrammar:\n%s", v.Name, firstDiff(bb, ba), cs.Text)
+			}
+		}
+		c.Class("inproc-equals-fresh-process")
 	}
 	if !accepted {
 		c.Class("rejected-by-yaccgo")
